@@ -103,6 +103,19 @@ func (valdec mapDecoder) canDecodeObjectAsMap() bool {
 	return false
 }
 
+// setNamedEntry stores v under a field name. The key type is string or
+// interface{} (see canDecodeObjectAsMap); an interface{} key needs the name
+// boxed, a pointer to the string itself would be read as an interface.
+func (valdec mapDecoder) setNamedEntry(mp unsafe.Pointer, name string, v *interface{}) {
+	if valdec.kt.Kind() == reflect.Interface {
+		kp := valdec.kt.UnsafeNew()
+		*(*interface{})(kp) = name
+		valdec.t.UnsafeSetIndex(mp, kp, reflect2.PtrOf(v))
+		return
+	}
+	valdec.t.UnsafeSetIndex(mp, reflect2.PtrOf(name), reflect2.PtrOf(v))
+}
+
 func (valdec mapDecoder) decodeListAsMap(dec *Decoder, p interface{}, tag byte) {
 	if !valdec.canDecodeListAsMap() {
 		dec.decodeError(valdec.t.Type1(), tag)
@@ -162,13 +175,13 @@ func (valdec mapDecoder) decodeObjectAsMap(dec *Decoder, p interface{}, tag byte
 				// the class definition names a field the registered struct does not have
 				dec.decodeInterface(dec.NextByte(), &v)
 			}
-			valdec.t.UnsafeSetIndex(mp, reflect2.PtrOf(name), reflect2.PtrOf(&v))
+			valdec.setNamedEntry(mp, name, &v)
 		}
 	} else {
 		for _, name := range structInfo.names {
 			var v interface{}
 			dec.decodeInterface(dec.NextByte(), &v)
-			valdec.t.UnsafeSetIndex(mp, reflect2.PtrOf(name), reflect2.PtrOf(&v))
+			valdec.setNamedEntry(mp, name, &v)
 		}
 	}
 	dec.Skip()
